@@ -266,4 +266,89 @@ theorem dedupeLoop_tree_matches_source (pending failed : Bytes → Bool) (k : By
   · simp [h]
   · simp [h]
 
+/-! ### kinds of exit and (value, error) pairings of the trees above -/
+
+/-- in the report loop the first three exits `continue` and the batch exit `break`s (what
+`reportLoop_tree_matches_source` maps them to) -/
+theorem reportLoop_tree_kinds_match_source :
+    Gen.Src.c16ReportLoopTreeKind 1 = 2 ∧ Gen.Src.c16ReportLoopTreeKind 2 = 2 ∧
+    Gen.Src.c16ReportLoopTreeKind 3 = 2 ∧ Gen.Src.c16ReportLoopTreeKind 4 = 3 ∧
+    Gen.Src.c16ReportLoopTreeKind 0 = 0 := by decide
+
+/-- the filter loop leaves with `continue` (of the key loop), not `break` / `return` -/
+theorem dedupeLoop_tree_kinds_match_source :
+    Gen.Src.c16FilterLoopTreeKind 1 = 2 ∧ Gen.Src.c16FilterLoopTreeKind 0 = 0 := by decide
+
+/-- `Validate` leaves only by `return`; its identifier loop body by `return` or by falling through -/
+theorem validObs_tree_kinds_match_source :
+    (∀ e, e < 5 → Gen.Src.c16ValidateTreeKind (e + 1) = 1) ∧
+    Gen.Src.c16ValidateIdsTreeKind 1 = 1 ∧ Gen.Src.c16ValidateIdsTreeKind 2 = 1 ∧
+    Gen.Src.c16ValidateIdsTreeKind 0 = 0 := by decide
+
+/-- `ValidateBlockKey` / `ValidateUpkeepIdentifier`: every exit is a `return`; the error result is `nil`
+exactly at exit 4 (the `true` exit of `validBlock_tree_matches_source`), the boolean result never is -/
+theorem validators_tree_nil_match_source :
+    (∀ e, e < 5 → (1 ≤ e → Gen.Src.c16ValidateBlockKeyTreeKind e = 1 ∧ Gen.Src.c16ValidateIdTreeKind e = 1) ∧
+      Gen.Src.c16ValidateBlockKeyTreeNil1 e = false ∧ Gen.Src.c16ValidateIdTreeNil1 e = false ∧
+      Gen.Src.c16ValidateBlockKeyTreeNil2 e = decide (e = 4) ∧ Gen.Src.c16ValidateIdTreeNil2 e = decide (e = 4)) := by
+  decide
+
+/-! ### the loop body of `ObservationsToUpkeepKeys` and the staging loop of `processLatestHead` -/
+
+/-- **the loop body of `ObservationsToUpkeepKeys` is the source's decision tree**, undecodable observation:
+first `continue` -/
+theorem collect_tree_matches_source_none (rest : List (Option Obs)) (a : Acc) (invalid : Bool) (n m : Nat) :
+    Gen.Src.c16CollectLoopTree true invalid n m Gen.v2ObservationUpkeepsLimit = 1 ∧
+    Gen.Src.c16CollectBlockTree true invalid = 1 ∧
+    collect (none :: rest) a = collect rest { a with parseErrors := a.parseErrors + 1 } := by
+  refine ⟨by simp [Gen.Src.c16CollectLoopTree], by simp [Gen.Src.c16CollectBlockTree], by rw [collect]⟩
+
+/-- … decoded observation: the validation `continue` (exit 2) comes second; the block key is collected
+(`c16CollectBlockTree` reaches its mark, exit 3) only past BOTH tests; the identifier list is appended
+(mark, exit 3 of `c16CollectLoopTree`) only when it is not empty, otherwise the body falls through -/
+theorem collect_tree_matches_source (ob : Obs) (rest : List (Option Obs)) (a : Acc) :
+    collect (some ob :: rest) a =
+      match Gen.Src.c16CollectLoopTree false (!validObs ob) ob.ids.length ob.ids.length Gen.v2ObservationUpkeepsLimit with
+      | 1 => collect rest { a with parseErrors := a.parseErrors + 1 }
+      | 2 => collect rest { a with parseErrors := a.parseErrors + 1 }
+      | 3 => collect rest
+          { parseErrors := a.parseErrors,
+            blocks := if Gen.Src.c16CollectBlockTree false (!validObs ob) = 3 then a.blocks ++ [ob.block] else a.blocks,
+            ids := a.ids ++ [ob.ids.take Gen.v2ObservationUpkeepsLimit] }
+      | _ => collect rest
+          { parseErrors := a.parseErrors,
+            blocks := if Gen.Src.c16CollectBlockTree false (!validObs ob) = 3 then a.blocks ++ [ob.block] else a.blocks,
+            ids := a.ids } := by
+  rw [collect]
+  unfold Gen.Src.c16CollectLoopTree Gen.Src.c16CollectBlockTree
+  cases hv : validObs ob
+  · simp
+  · by_cases hl : ob.ids.length > 0
+    · by_cases hk : Gen.v2ObservationUpkeepsLimit < ob.ids.length
+      · simp [hl, hk]
+      · simp [hl, hk, List.take_of_length_le (Nat.le_of_not_lt hk)]
+    · simp [hl]
+
+theorem collect_tree_kinds_match_source :
+    Gen.Src.c16CollectLoopTreeKind 1 = 2 ∧ Gen.Src.c16CollectLoopTreeKind 2 = 2 ∧
+    Gen.Src.c16CollectLoopTreeKind 3 = 4 ∧ Gen.Src.c16CollectLoopTreeKind 0 = 0 ∧
+    Gen.Src.c16CollectBlockTreeKind 1 = 2 ∧ Gen.Src.c16CollectBlockTreeKind 2 = 2 ∧
+    Gen.Src.c16CollectBlockTreeKind 3 = 4 := by decide
+
+/-- **the staging loop of `processLatestHead` is the source's decision tree**: eligibility error,
+not eligible, `Detail` error `continue` in that order; a key that cannot be split does NOT skip the
+result (`prepareIdentifier` is reached on both arms, with the nil identifier) -/
+theorem stageIds_tree_matches_source (r : HeadRes) (rs : List HeadRes) :
+    stageIds (r :: rs) =
+      match Gen.Src.c16StageLoopTree r.eligErr r.eligible r.detailErr (splitKey r.key).isNone with
+      | 4 => (splitKey r.key).map (·.2) :: stageIds rs   -- `prepareIdentifier` reached
+      | _ => stageIds rs := by
+  rw [stageIds]
+  unfold Gen.Src.c16StageLoopTree
+  cases r.eligErr <;> cases r.eligible <;> cases r.detailErr <;> cases splitKey r.key <;> simp
+
+theorem stageIds_tree_kinds_match_source :
+    Gen.Src.c16StageLoopTreeKind 1 = 2 ∧ Gen.Src.c16StageLoopTreeKind 2 = 2 ∧
+    Gen.Src.c16StageLoopTreeKind 3 = 2 ∧ Gen.Src.c16StageLoopTreeKind 4 = 4 := by decide
+
 end AutoVerif.C16
